@@ -23,7 +23,7 @@ INITS = [("sinit", 0, "rsa_aa", "sha256-rsa"), ("sinit", 0, "ec_aa", "ecdsa"), (
 MECH = {"sha256-rsa": lambda: mech(C.CKM_SHA256_RSA_PKCS), "ecdsa": lambda: mech(C.CKM_ECDSA), "rsa-pkcs": lambda: mech(C.CKM_RSA_PKCS)}
 OPS = [("sign", 0), ("supdate", 0), ("sfinal", 0), ("decrypt", 0), ("sign", 1)]
 LOGINS = [("ctx", 0, "right"), ("ctx", 0, "wrong"), ("ctx", 0, "so"), ("ctx", 1, "right")]
-MISC = [("userlogin", 0), ("relogin",)]
+MISC = [("userlogin", 0), ("relogin",), ("logout",)]      # after "logout" the user stays logged out until "userlogin" / "relogin"
 DATA = bytes(range(32))
 
 
@@ -55,13 +55,13 @@ class C07AA(CheckBase):
         W.ok(p.Login(ss[0], C.CKU_USER, W.USER_A), "login")
         # model: sessions, per session op = None | dict(kind, aa, authed)
         # certain[si]: the model knows whether an operation is active in that session (lost after an error of unknown consequence, regained by a successful Init)
-        return {"s": ss, "op": [None, None], "certain": [True, True]}
+        return {"s": ss, "op": [None, None], "certain": [True, True], "logged_in": True}
 
     def actions(self, m):
         return INITS + OPS + LOGINS + MISC
 
     def key(self, ctx, m):
-        return repr((m["op"], m["certain"]))
+        return repr((m["op"], m["certain"], m.get("logged_in")))
 
     def step(self, ctx, m, a):
         p = ctx.p
@@ -70,6 +70,8 @@ class C07AA(CheckBase):
             _k, si, keyname, mname = a
             hs = p.FindAll(m["s"][2], [(C.CKA_LABEL, keyname.encode()), (C.CKA_CLASS, C.CKO_PRIVATE_KEY)]).get("hs") or []
             if len(hs) != 1:
+                if not m.get("logged_in", True):
+                    return m             # logged out: the private keys are not visible, nothing can be initialised
                 raise Violation("C07|aa|harness|key-not-found", {"key": keyname})
             r = p.init_op("Sign" if kind == "sinit" else "Decrypt", m["s"][si], MECH[mname](), hs[0])
             if r["rv"] == C.CKR_OK:
@@ -130,10 +132,18 @@ class C07AA(CheckBase):
                 ctx.count("context-login-ok")
             return m
         if kind == "userlogin":
-            p.Login(m["s"][a[1]], C.CKU_USER, W.USER_A)
+            r = p.Login(m["s"][a[1]], C.CKU_USER, W.USER_A)
+            if r["rv"] == C.CKR_OK:
+                m["logged_in"] = True
+            return m
+        if kind == "logout":
+            # an operation that was initialised before keeps its key material; whether it may still produce output is exactly the question
+            if p.Logout(m["s"][0])["rv"] == C.CKR_OK:
+                m["logged_in"] = False
             return m
         if kind == "relogin":
             p.Logout(m["s"][0])
             W.ok(p.Login(m["s"][0], C.CKU_USER, W.USER_A), "login again")
+            m["logged_in"] = True
             return m
         raise ValueError(a)
